@@ -80,6 +80,9 @@ def handleMint (st : IssueSt) : List String → Option (IssueSt × String)
       let supPrev ← parseNat supPrev; let supNow ← parseNat supNow
       let holdPrev ← parseNat holdPrev; let holdNow ← parseNat holdNow
       some (st, toString (Sif.Spec.C20.mintStepOK Sif.Spec.C20.capRowan per cPrev cNow supPrev supNow holdPrev holdNow))
+  | ["chk", "c20.minttotal", _tag, c0, mintedSum, cNow] => do
+      let c0 ← parseNat c0; let mintedSum ← parseNat mintedSum; let cNow ← parseNat cNow
+      some (st, toString (Sif.Spec.C20.mintTotalOK Sif.Spec.C20.capRowan c0 mintedSum cNow))
   | ["chk", "c20.mintafter", _tag, per, c0, n, cNow] => do
       let per ← parseNat per; let c0 ← parseNat c0; let n ← parseNat n; let cNow ← parseNat cNow
       some (st, toString (Sif.Spec.C20.mintAfterOK Sif.Spec.C20.capRowan per c0 n cNow))
